@@ -334,6 +334,14 @@ Definition set_steps (st : state) (n : N) : state :=
 Definition attempts (todo : list N) (r : option (list N)) : N :=
   match r with None => Nlen todo | Some wound => Nlen wound + 1 end.
 
+(* FinishWithFailure: last_block_id / last_block_hash are pointed at the tip again *)
+Definition resync_last (st : state) : res state :=
+  do e <- latest_entry st;
+  Ok (match e with
+      | Some (h, id) => mkSt (blocks st) (ring st) (ring_lc st) (ring_empty st) (utxo st) id h (wsteps st)
+      | None => st
+      end).
+
 Definition validate (c : cfg) (st : state) (new old : list N) : res (state * bool) :=
   match new with
   | [] => Panic SITE_UNWRAP_BLOCK
@@ -352,10 +360,11 @@ Definition validate (c : cfg) (st : state) (new old : list N) : res (state * boo
                 do st3 <- unwind_all c st2 wound;
                 let n1 := Nlen old + (Nlen wound + 1) + Nlen wound in
                 match old with
-                | [] => Ok (set_steps st3 n1, false)
+                | [] => do st4 <- resync_last st3; Ok (set_steps st4 n1, false)
                 | _ =>
                     do r' <- wind_list c st3 (rev old) [];
-                    Ok (set_steps (fst r') (n1 + attempts old (snd r')), false)
+                    do st4 <- resync_last (fst r');
+                    Ok (set_steps st4 (n1 + attempts old (snd r')), false)
                 end
             end
       end
@@ -458,9 +467,10 @@ Fixpoint lc_rows (c : cfg) (r : list ritem) (id : N) (n : nat) : list N :=
 Definition obs_rows (c : cfg) (st : state) (code : N) : res (list (list N)) :=
   do tid <- latest_id st;
   do th <- latest_hash st;
-  Ok [[code; wsteps st]; [tid; th];
+  Ok [[code; wsteps st]; [tid; th; last_id st; last_hash st];
       lc_rows c (ring st) 0 (N.to_nat (max_id st tid + 2));
-      flat_map (fun hb => [fst hb; b_id (s_b (snd hb)); if s_lc (snd hb) then 1 else 0]) (blocks st);
+      flat_map (fun hb => [fst hb; b_id (s_b (snd hb)); if s_lc (snd hb) then 1 else 0;
+                           if ring_contains c (ring st) (b_id (s_b (snd hb))) (fst hb) then 1 else 0]) (blocks st);
       map (fun k => 2 * k + 1) (utxo st)].
 
 Fixpoint run_trace_from (c : cfg) (bs : list blk) (st : state) (order : list N)
